@@ -42,7 +42,8 @@ def clause_point(repo, chk):
     pf, pp = fn.params[0], fn.params[1]
 
     def is_event(node, sc):
-        return any(isinstance(x, ast.Call) and isinstance(x.func, ast.Name) and x.func.id == pf and x.args and isinstance(x.args[0], ast.Name) and x.args[0].id == pp for x in ast.walk(sc)) or \
+        return any(isinstance(x, ast.Call) and isinstance(x.func, ast.Name) and x.func.id == pf and any(isinstance(a_, ast.Name) and a_.id == pp for a_ in list(x.args) + [k_.value for k_ in x.keywords]) for x in ast.walk(sc)) or \
+            any(isinstance(x, ast.Call) and isinstance(x.func, ast.Attribute) and isinstance(x.func.value, ast.Name) and x.func.value.id == pf and x.func.attr in ("__call__", "nll_grad", "grad", "nll_grad_hessian", "set_params") and any(isinstance(a_, ast.Name) and a_.id == pp for a_ in list(x.args) + [k_.value for k_ in x.keywords]) for x in ast.walk(sc)) or \
             any(isinstance(x, ast.Call) and isinstance(x.func, ast.Attribute) and x.func.attr in ("set_params", "set_all") and any(isinstance(a, ast.Name) and a.id == pp for a in x.args) for x in ast.walk(sc))
 
     def is_sink(node, sc):
